@@ -122,6 +122,12 @@ def post_state(ex, s2):
 def check_post(ex, cc, s2, value, fn, k):
     p = post_state(ex, s2)
     ex.result = value
+    refused = [t for t in (cc.options.get("always_refused") or []) if ("[" + t + "]") in (ex.prefix or "") or ("," + t + "]") in (ex.prefix or "")
+               or ("[" + t + ",") in (ex.prefix or "")]
+    if refused:
+        # a structural case that the function must refuse whatever the contents: the return path is to be UNREACHABLE
+        ex.emit(p, "post", "always_refused", False, fn, "no normal return for the case %s" % refused[0])
+        return
     if k == 1:
         can = Obligation(ex.oid("canary", "return%d" % k), "canary", list(ex.axioms) + list(p.pc), z3.BoolVal(False), ex.f.qual,
                          fn.lineno, "ensures(False) must be refuted (a return path is reachable)", ex.inputs)
@@ -144,7 +150,7 @@ def check_raise(ex, cc, s2, exc, fn):
     p = post_state(ex, s2)
     matched = False
     for e2, cl in cc.raises_iff:
-        if e2 == exc:
+        if e2 == exc or e2 == "Exception":   # raises_iff(Exception, c): refusal by whatever exception, iff c
             matched = True
             o = ex.old_state.fork()
             o.pc = list(p.pc)
